@@ -82,6 +82,7 @@ type pathCtx struct {
 	mdl     map[string]uint64 // a model of the current PC, when known
 	noModel bool              // uninterpreted functions in use: no model caching
 	memo    map[*Term]uint64
+	known   map[string]bool // conditions whose truth is fixed by the PC
 }
 
 type Stats struct {
@@ -250,6 +251,35 @@ func (p *pathCtx) addPC(t *Term) {
 		return
 	}
 	p.pc = append(p.pc, t)
+	p.learn(t, true)
+}
+
+// learn records that condition t has the given truth value under the PC.
+func (p *pathCtx) learn(t *Term, v bool) {
+	for t.op == OpNot && t.w == 0 {
+		t, v = t.a, !v
+	}
+	if p.known == nil {
+		p.known = map[string]bool{}
+	}
+	p.known[termKey(t)] = v
+	// a true conjunction fixes its conjuncts; a false disjunction its disjuncts
+	if t.w == 0 && ((t.op == OpAnd && v) || (t.op == OpOr && !v)) {
+		p.learn(t.a, v)
+		p.learn(t.b, v)
+	}
+}
+
+func (p *pathCtx) lookupKnown(t *Term) (bool, bool) {
+	v := true
+	for t.op == OpNot && t.w == 0 {
+		t, v = t.a, !v
+	}
+	if p.known == nil {
+		return false, false
+	}
+	r, ok := p.known[termKey(t)]
+	return r == v, ok
 }
 
 // checkWith asks whether PC ∧ t is satisfiable.
@@ -350,6 +380,20 @@ func (p *pathCtx) branch(c *Term) bool {
 		}
 		p.addPC(mkNot(c))
 		return false
+	}
+	if v, ok := p.lookupKnown(c); ok {
+		// already decided by the path condition (syntactically the same condition)
+		ch := 0
+		if v {
+			ch = 1
+		}
+		p.record(entry{kind: eBranch, choice: ch})
+		if v {
+			p.addPC(c)
+		} else {
+			p.addPC(mkNot(c))
+		}
+		return v
 	}
 	p.w.e.mu.Lock()
 	p.w.e.Stats.Branches++
